@@ -158,17 +158,21 @@ func (e *Env) DeleteGlobal(symbol string) {
 
 // Addr returns reflect.Addr of value for first matching symbol found in current or parent scope.
 func (e *Env) Addr(symbol string) (reflect.Value, error) {
+	// like GetValue: the scope's lock is not held while the external lookup runs or the parent is asked
+	// (a lookup that binds what it loads in this scope would wait for the lock for ever)
 	e.rwMutex.RLock()
-	defer e.rwMutex.RUnlock()
+	v, ok := e.values[symbol]
+	externalLookup := e.externalLookup
+	e.rwMutex.RUnlock()
 
-	if v, ok := e.values[symbol]; ok {
+	if ok {
 		if v.CanAddr() {
 			return v.Addr(), nil
 		}
 		return NilValue, fmt.Errorf("unaddressable")
 	}
-	if e.externalLookup != nil {
-		v, err := e.externalLookup.Get(symbol)
+	if externalLookup != nil {
+		v, err := externalLookup.Get(symbol)
 		if err == nil {
 			if v.CanAddr() {
 				return v.Addr(), nil
